@@ -157,8 +157,8 @@ theorem inv_of_step {c : CW} (hi : Inv c) {w' : WM} {id : Nat} (hs : Step c.w w'
       intro h hm
       exact ⟨hkn _ (hi.markedKnown h hm).1, (hi.markedKnown h hm).2⟩
     markedRange := by
-      show ∀ h ∈ w'.marked, HRange h
-      rw [hmk]; exact hi.markedRange
+      show ∀ h ∈ w'.marked, HRange w'.worldId h
+      rw [hmk, hwid]; exact hi.markedRange
     markedSorted := by show w'.marked.Pairwise _; rw [hmk]; exact hi.markedSorted }
 
 /-- everything `destroyNowU` of a valid handle guarantees, for `Inv` and `Rel` -/
